@@ -7,7 +7,7 @@
                (pkg/segment/writer/stats/segstats.go, query time) and addSegStatsNums /
                addSegStatsStrIngestion (pkg/segment/writer/packer.go, ingest time; same arithmetic,
                no values/list/time part);
-       merge = SegStats.Merge, NumericStats.Merge, StringStats.Merge, TimeStats.Merge
+       merge = SegStats.Merge (with fixes/C04-merge-isnumeric), NumericStats.Merge, StringStats.Merge, TimeStats.Merge
                and stats.MergeSegStats (absent map entry = identity: the other record is adopted whole);
        finalize = segread.GetSegCount/Sum/Avg/Min/Max/Range/Value/List/LatestOrEarliestVal called once
                with runningSegStat = nil on the merged map (segresults.UpdateSegmentStats);
@@ -167,17 +167,37 @@ Definition add_str (o : option segstats) (v : mval) : segstats :=
   upd_minmax s' (val_of v).
 
 (* one record of the statsProcessor loop; with_ts = the query has earliest/latest(-time) measures *)
+(* FIXED code (fixes/C04-latest-earliest-skip-missing): the time stats of a column only advance on
+   records that have the column — a record without it changes nothing *)
 Definition add (with_ts : bool) (o : option segstats) (e : event) : option segstats :=
+  let '(t, v) := e in
+  match v with
+  | MAbs => o
+  | _ =>
+    let o1 := if with_ts then
+                let s := match o with None => new_for_ts | Some s => s end in
+                Some (mkS (isnum s) (cnt s) (mn s) (mx s) (num s) (sset s) (slist s) (ts_step (tst s) t v))
+              else o in
+    match v with
+    | MStr _ => Some (add_str o1 v)
+    | _ => match num_of v with Some n => Some (add_num o1 v n) | None => o1 end
+    end
+  end.
+
+(* PRE-FIX (documentation only): the time functions ran for every matched record, also for one
+   without the column *)
+Definition add_prefix (with_ts : bool) (o : option segstats) (e : event) : option segstats :=
   let '(t, v) := e in
   let o1 := if with_ts then
               let s := match o with None => new_for_ts | Some s => s end in
               Some (mkS (isnum s) (cnt s) (mn s) (mx s) (num s) (sset s) (slist s) (ts_step (tst s) t v))
             else o in
   match v with
-  | MAbs => o1                                  (* not a string, not numeric: skipped *)
+  | MAbs => o1
   | MStr _ => Some (add_str o1 v)
   | _ => match num_of v with Some n => Some (add_num o1 v n) | None => o1 end
   end.
+Definition stats_prefix (with_ts : bool) (l : list event) : option segstats := fold_left (add_prefix with_ts) l None.
 
 Definition stats (with_ts : bool) (l : list event) : option segstats := fold_left (add with_ts) l None.
 
@@ -200,9 +220,10 @@ Definition ts_merge (a b : option tstats) : option tstats :=
   end.
 
 (* SegStats.Merge: IsNumeric of the receiver is kept; UpdateMinMax(ss, other.Min); UpdateMinMax(ss, other.Max) *)
+(* FIXED code (fixes/C04-merge-isnumeric): IsNumeric = ss.IsNumeric || other.IsNumeric *)
 Definition merge (a b : segstats) : segstats :=
   let a1 := upd_minmax (upd_minmax a (mn b)) (mx b) in
-  mkS (isnum a) (cnt a + cnt b) (mn a1) (mx a1) (num_merge (num a) (num b))
+  mkS (isnum a || isnum b) (cnt a + cnt b) (mn a1) (mx a1) (num_merge (num a) (num b))
       (sset a ++ sset b) (slist a ++ slist b) (ts_merge (tst a) (tst b)).
 
 (* stats.MergeSegStats on one column *)
@@ -216,6 +237,20 @@ Definition mergeo (a b : option segstats) : option segstats :=
 (* blocks / segments merged in the given order *)
 Definition merge_blocks (with_ts : bool) (bs : list (list event)) : option segstats :=
   fold_left (fun acc b => mergeo acc (stats with_ts b)) bs None.
+
+(* PRE-FIX (documentation only): IsNumeric of the receiver was kept *)
+Definition merge_prefix (a b : segstats) : segstats :=
+  let a1 := upd_minmax (upd_minmax a (mn b)) (mx b) in
+  mkS (isnum a) (cnt a + cnt b) (mn a1) (mx a1) (num_merge (num a) (num b))
+      (sset a ++ sset b) (slist a ++ slist b) (ts_merge (tst a) (tst b)).
+Definition mergeo_prefix (a b : option segstats) : option segstats :=
+  match a, b with
+  | None, _ => b
+  | _, None => a
+  | Some x, Some y => Some (merge_prefix x y)
+  end.
+Definition merge_blocks_prefix (with_ts : bool) (bs : list (list event)) : option segstats :=
+  fold_left (fun acc b => mergeo_prefix acc (stats with_ts b)) bs None.
 
 (* ---------- finalize (segstatsreader.go, runningSegStat = nil) ---------- *)
 Record result := mkR {
